@@ -389,8 +389,9 @@ void ExecImpl::watched_death_model(int wid, std::vector<XRep>& want) {
         }
         bool eligible = m.in_seq[i] && M.pos_in(m.seq[i], true, mid) >= 0;
         if (!eligible && !M.seqs[m.seq[i]].tainted) {
+          // reported non-fatally, once per violated sequence, and the death still counts (C05): the sequence itself goes on
+          // as the model says - what is registered before the requirement is passed, what comes after it stays
           XRep x; x.kind = RK_SEQMISMATCH; x.fatal = false; x.mon = mid; x.seqidx = i; want.push_back(x);
-          M.seqs[m.seq[i]].tainted = true;
           ++st.p_monitor_seq_violation;
         } else if (M.seqs[m.seq[i]].tainted) {
           // after a reported violation nothing is asserted about this sequence (DESIGN 3.5): a report is allowed, not required
